@@ -20,6 +20,7 @@ import (
 
 	"verif/coop"
 	"verif/sx"
+	"verif/vatomic"
 	"verif/vclock"
 	"verif/vk"
 )
@@ -443,6 +444,16 @@ func main() {
 	defer run.Finish()
 	run.Rule("schedule = (family warm/cold/boundary, geometry 1/2/3/20 buckets x 10/500 ms, 2-3 workers x 1-2 ops add/read/values/conc + a clock-tick worker constrained so that no in-flight recorder is stalled longer than one bucket, choice sequence at every atomic access of core/stat/base) under random walk, PCT d<=3 and bounded DFS; amounts are distinct powers of 16 so that every total decodes into exactly which adds were counted; distinct = distinct (scenario, interleaving).")
 	run.Assume("Go atomics are sequentially consistent: interleaving at atomic-access granularity is complete for this lock-free code", "min-rt / max-concurrency (documented as possibly inaccurate) are exercised but not compared")
+	{ // observability calibration: the code under test must reach the scheduler through the atomic shim
+		c0 := atomic.LoadUint64(&vatomic.Count)
+		a := sbase.NewBucketLeapArray(2, 1000)
+		a.AddCount(base.MetricEventPass, 1)
+		_ = a.Count(base.MetricEventPass)
+		if atomic.LoadUint64(&vatomic.Count) == c0 {
+			run.Inconclusive("observability: recording into a BucketLeapArray executed no shimmed atomic access (were the files of core/stat/base renamed?) - no interleaving can be explored")
+			return
+		}
+	}
 	n := run.N(30000, 1500000)
 	for i := 0; i < n; i++ {
 		if run.Skip(i) {
